@@ -35,12 +35,12 @@ type C19Case struct {
 var c19Dbs = []string{"0", "1", "2", "9"}
 
 func c19Cmd(t *rapid.T) []string {
-	k := pick(t, "k", "s1", "s2", "l1", "l2", "h1", "z1", "x")
+	k := pick(t, "k", "s1", "s2", "l1", "l2", "h1", "z1", "x", "")
 	v := pick(t, "v", "a", "b", "10", "", "\x00\xff\r\n", "longer value with spaces")
 	switch weighted(t, "kind", []int{10, 6, 3, 2}) {
 	case 0: // creating / replacing
 		return pick(t, "create",
-			[]string{"SET", pick(t, "sk", "s1", "s2", "x"), v}, []string{"RPUSH", pick(t, "lk", "l1", "l2", "x"), v, "e2", "e3"}, []string{"LPUSH", "l1", v},
+			[]string{"SET", pick(t, "sk", "s1", "s2", "x", ""), v}, []string{"HSET", "h1", "", v, v, ""}, []string{"SADD", "z1", ""}, []string{"RPUSH", "l2", "", v}, []string{"RPUSH", pick(t, "lk", "l1", "l2", "x"), v, "e2", "e3"}, []string{"LPUSH", "l1", v},
 			[]string{"HSET", pick(t, "hk", "h1", "x"), "f", v, "g", "2"}, []string{"SADD", pick(t, "zk", "z1", "x"), v, "m2"}, []string{"MSET", "s1", v, "s2", "7"},
 			[]string{"SETEX", "s2", "100000", v}, []string{"SET", "s1", v, "PXAT", "4102444800123"}, []string{"COPY", k, "x", "REPLACE"}, []string{"RENAME", k, "x"},
 			[]string{"SUNIONSTORE", "z1", "z1", "x"}, []string{"SORT", "l1", "ALPHA", "STORE", "l2"}, []string{"BITOP", "OR", "s2", "s1", "s2"}, []string{"INCR", "x"},
